@@ -90,9 +90,16 @@ def root_of(node):
             return None
 
 
+# simple names of functions / methods defined in the analysed files ALL of whose definitions return, on every path, a
+# value created inside the function (or a number): a call of such a function yields a fresh value whatever its
+# arguments are.  Computed as a fixpoint by `fresh_returning` before the files are scanned.
+FRESH_RETURNS = set()
+
+
 class FuncScan(ast.NodeVisitor):
     def __init__(self, fn, module_names):
         self.fn = fn
+        self.returns = []      # origin of every returned value, taken where the return statement stands
         self.params = {a.arg for a in fn.args.args + fn.args.kwonlyargs if a.arg != "self"}
         if fn.args.vararg:
             self.params.add(fn.args.vararg.arg)
@@ -122,6 +129,8 @@ class FuncScan(ast.NodeVisitor):
         if isinstance(e, ast.Call):
             f = ast.unparse(e.func)
             if f in FRESH_CALLS or f.endswith(".copy") or f.endswith(".tolist") or f.endswith(".astype") or f.endswith(".flatten"):
+                return "fresh"
+            if f.split(".")[-1] in FRESH_RETURNS and (("." not in f) or f.startswith("self.")):
                 return "fresh"
             # the result of an unknown call may alias its arguments (e.g. an identity helper such as
             # `_kwargs_init(kwargs)`): be conservative
@@ -250,6 +259,16 @@ class FuncScan(ast.NodeVisitor):
         if fs == "setattr" and node.args and isinstance(node.args[0], ast.Name) and node.args[0].id == "self":
             self.attr_writes.append((ast.unparse(node.args[1]), node.lineno))
 
+    def visit_Return(self, node):
+        self.generic_visit(node)
+        v = node.value
+        if isinstance(v, (ast.Tuple, ast.List)):
+            # a returned tuple is destructured by the caller: its elements count
+            org = worst("fresh", *[self.origin_of_expr(x) for x in v.elts]) if v.elts else "fresh"
+        else:
+            org = "number" if v is None else self.origin_of_expr(v)
+        self.returns.append(org)
+
     def visit_FunctionDef(self, node):
         if node is self.fn:
             self.generic_visit(node)
@@ -321,7 +340,51 @@ def scan_file(repo, rel):
     return out_eff, out_attr, out_calls, mutators
 
 
+def fresh_returning(repo):
+    """fixpoint: names all of whose definitions in the analysed files return only fresh values / numbers"""
+    defs = {}
+    for rel in FILES:
+        path = os.path.join(repo, "hierarc", rel)
+        if not os.path.exists(path):
+            continue
+        tree = ast.parse(open(path).read())
+        module_names = {t.id for n in tree.body if isinstance(n, ast.Assign) for t in n.targets if isinstance(t, ast.Name)}
+        for n in ast.walk(tree):
+            if isinstance(n, ast.FunctionDef) and n.name != "__init__":
+                defs.setdefault(n.name, []).append((n, module_names))
+    fresh = set()
+    while True:
+        FRESH_RETURNS.clear()
+        FRESH_RETURNS.update(fresh)
+        new = set()
+        for name, lst in defs.items():
+            ok = True
+            for fn, module_names in lst:
+                # generators and functions with nested definitions are left alone
+                if any(isinstance(x, (ast.Yield, ast.YieldFrom)) for x in ast.walk(fn)):
+                    ok = False
+                    break
+                sc = FuncScan(fn, module_names)
+                for stmt in fn.body:
+                    sc.visit(stmt)
+                if not all(o in ("fresh", "number") for o in sc.returns):
+                    ok = False
+                    break
+            if ok:
+                new.add(name)
+        if new == fresh:
+            break
+        # monotone: start from the empty set and only grow
+        if not new >= fresh:
+            new = new | fresh
+        fresh = new
+    FRESH_RETURNS.clear()
+    FRESH_RETURNS.update(fresh)
+    return sorted(fresh)
+
+
 def emit(repo):
+    fresh_names = fresh_returning(repo)
     effs, attrs, calls, mutators = [], [], [], []
     for rel in FILES:
         if not os.path.exists(os.path.join(repo, "hierarc", rel)):
@@ -362,6 +425,6 @@ def emit(repo):
     out.append("]")
     out.append("")
     out.append("end HierArc.Gen")
-    info = {"effects": len(effs), "attr_writes": len(attrs), "mutating_calls": len(mcalls),
+    info = {"effects": len(effs), "attr_writes": len(attrs), "mutating_calls": len(mcalls), "fresh_returning": len(fresh_names),
             "by_origin": {o: sum(1 for e in effs if e[5] == o) for o in sorted(set(e[5] for e in effs))}}
     return "\n".join(out) + "\n", info
